@@ -15,7 +15,8 @@ from props import xpcommon as XP
 VALUES = ["", "t", "x y", "<k/>", "<k a='1'>x</k>tail", "a&amp;b", "&lt;", "&#65;", "<!--c-->", "<?pi d?>", "<![CDATA[x<y]]>",
           "<k><m n=\"2\"/>z</k>", "<p:k xmlns:p='urn:u1' p:a='1'/>", "<a", "</r>", "<k a='1' a='2'/>", "a<b/>c<!--d-->e",
           "<p:k xmlns:p='urn:u1' p:a='1' a='2'/>", "&nosuch;", "<k>&#x42;</k>", "  ", "é\U0001D4B3", "<k xmlns='urn:u2'><k/></k>",
-          "<k a=\"v&amp;w\"/>", "<k a='&#65;'/>", "]]>", "<?xml version='1.0'?>", "<k/><m/>", "<!--c--><k/>", "<!DOCTYPE k><k/>"]
+          "<k a=\"v&amp;w\"/>", "<k a='&#65;'/>", "a\"b&amp;c'd", "\"", "'", "a\"b'c", "x\"y", "it's", "<k a='x\"y'/>",
+          "<k a=\"it's\">'\"</k>", "&quot;&apos;", "a\"&amp;'", "]]>", "<?xml version='1.0'?>", "<k/><m/>", "<!--c--><k/>", "<!DOCTYPE k><k/>"]
 SELECTORS = ["/", "/*", "//*", "//a", "//b", "//c", "//@*", "//@id", "//@x", "/*/*", "/*/*[1]", "/*/*[last()]", "//*[not(*)]",
              "//a//b", "//*[@id]", "/*/@*", "//a | //b/@*", "//a/.. | //c", "//*[1]", "//p:a", "//p:*", "//@p:*", "//q:b",
              "//text()", "//comment()", "//processing-instruction()", "//node()", "/* | /", "//*[2]/@*[1]", "//b/ancestor::*",
